@@ -44,7 +44,7 @@ pub struct C08Sys {
     pub max_count: u32,
 }
 
-#[derive(Clone, PartialEq, Eq, Hash)]
+#[derive(Clone, PartialEq, Eq, Hash, Debug)]
 pub struct C08State {
     pub bus: VirtualSignBus<'static>,
     pub shadow: RefSign,
@@ -441,6 +441,24 @@ pub fn run(ctx: &Ctx) -> Report {
             }
         }
     }
+    // E5: second engine on two of the runs
+    let mut xs = vec![];
+    if rep.violations.is_empty() {
+        for (ti, automatic) in [(5usize, false), (2usize, true)] {
+            let name = make_sys(ti, automatic, 3, None, false, ctx.seed).name();
+            let mine = runs.iter().find(|r| r["run"] == json!(name)).and_then(|r| r["states"].as_u64());
+            // the thorough tier explores address 3 with the richer chunk alphabet; compare like with like
+            let rich = thorough;
+            let sr = crate::xcheck::stateright_unique_states(make_sys(ti, automatic, 3, None, rich, ctx.seed));
+            if let Some(mine) = mine {
+                xs.push(json!({"run": name, "stateright_unique_states": sr, "own_explorer_states": mine, "equal": sr == mine}));
+                if sr != mine {
+                    rep.machinery_errors.push(format!("E5 cross-check: stateright found {} unique states for {}, the own explorer {}", sr, name, mine));
+                }
+            }
+        }
+    }
+    rep.set("stateright_cross_check", Value::Array(xs));
     rep.set("bfs_runs", Value::Array(runs));
     let bad = !rep.violations.is_empty();
     let mut missing = vec![];
